@@ -48,6 +48,14 @@ class BodyBase(BaseException):
     """a non-Exception BaseException raised by a task body"""
 
 
+class UserCfg:
+    """a user entry of broker.custom_dependency_context (broker.add_dependency_context); shared by design.
+    When the key is missing from the dict the resolver is handed, it instantiates the class itself (tag -1)."""
+
+    def __init__(self, tag: int = -1) -> None:
+        self.tag = tag
+
+
 class Run:
     """state of one case"""
 
@@ -176,10 +184,10 @@ def echo(ctx):
     return [m.task_id, m.args[0] if m.args else None, m.labels.get("who"), m.kwargs.get("kw")]
 
 
-def h_enter(node, ctx):
+def h_enter(node, ctx, ucfg=None):
     e = EXEC.get()
     R.tok += 1
-    R.ev("enter", e, node, R.tok, R.src.get(e), echo(ctx))
+    R.ev("enter", e, node, R.tok, R.src.get(e), echo(ctx), None if ucfg is None else getattr(ucfg, "tag", "?"))
     return R.tok
 
 
@@ -258,12 +266,14 @@ def node_src(k, n):
     params = []
     if n.get("ctx"):
         params.append("ctx: Context = TaskiqDepends()")
+    if n.get("user"):
+        params.append("ucfg: UserCfg = TaskiqDepends()")
     vals = []
     for j, (child, cached) in enumerate(n.get("subs", [])):
         params.append("p%d=TaskiqDepends(node_%d, use_cache=%s)" % (j, child, bool(cached)))
         vals.append("p%d" % j)
     sig = ", ".join(params)
-    cx = "ctx" if n.get("ctx") else "None"
+    cx = ("ctx" if n.get("ctx") else "None") + (", ucfg" if n.get("user") else "")
     st = n["style"]
     swallow = bool(n.get("swallow"))
     tail = ("    h_close({k}, tok, saw)\n{post}    h_closed({k}, tok)\n"
@@ -373,7 +383,7 @@ def _run_case(case):
     mod = types.ModuleType("verif_deps_generated")
     sys.modules[mod.__name__] = mod
     ns = mod.__dict__
-    ns.update(Context=Context, TaskiqDepends=TaskiqDepends, contextlib=contextlib, h_enter=h_enter, h_fail=h_fail,
+    ns.update(UserCfg=UserCfg, Context=Context, TaskiqDepends=TaskiqDepends, contextlib=contextlib, h_enter=h_enter, h_fail=h_fail,
               h_pause=h_pause, h_ready=h_ready, h_close=h_close, h_closed=h_closed, h_val=h_val, h_body=h_body,
               h_body_sync=h_body_sync)
     for k, n in enumerate(case["nodes"]):
@@ -382,12 +392,15 @@ def _run_case(case):
     broker.result_backend = RecBackend()
     if case.get("middleware", True):
         broker.add_middlewares(RecMiddleware())
-    for key, val in (case.get("extra_ctx") or {}).items():
-        broker.add_dependency_context({key: val})
+    if case.get("user_ctx") is not None:
+        broker.add_dependency_context({UserCfg: UserCfg(int(case["user_ctx"]))})
     R.broker = broker
     for t, spec in enumerate(case["tasks"]):
         exec(task_src(t, spec), ns)
         broker.register_task(ns["task_%d" % t], task_name="task_%d" % t)
+    if case.get("overrides"):
+        # resolved per execution: async_ctx builds a new DependencyGraph(target, replaced_deps) for every message
+        broker.dependency_overrides = {ns["node_%d" % a]: ns["node_%d" % b] for a, b in case["overrides"]}
     ack = case.get("ack", "when_saved")
     if case.get("via_inmemory") and ack == "when_saved":
         receiver = broker.receiver          # the receiver InMemoryBroker builds itself (propagate flag plumbed by it)
